@@ -276,7 +276,16 @@ func linMentions(v ssa.Value, name string) bool {
 }
 
 // putWritesField: f contains a binary.*.PutUintN(buf, load of field) whose buf reaches a storage Put.
-func putWritesField(f *ssa.Function, field string) bool {
+func putWritesField(top *ssa.Function, field string) bool {
+	for _, f := range withHelpers(top) {
+		if putWritesFieldIn(f, field) {
+			return true
+		}
+	}
+	return false
+}
+
+func putWritesFieldIn(f *ssa.Function, field string) bool {
 	for _, c := range calls(f) {
 		cc := c.Common()
 		if !cc.IsInvoke() || !strings.HasPrefix(cc.Method.Name(), "PutUint") {
